@@ -59,10 +59,14 @@ def observe(ctx, kind, cfg, name, probes):
                 break
             time.sleep(0.2)
         uid = None
-        if t.alive():
+        t_uid = time.monotonic() + 2.5          # the drop follows the last worker's socket: give it a moment
+        while t.alive():
             for line in open("/proc/%d/status" % t.proc.pid):
                 if line.startswith("Uid:"):
                     uid = int(line.split()[2])      # effective uid
+            if uid != 0 or time.monotonic() > t_uid:
+                break
+            time.sleep(0.1)
         return {"alive": t.alive(), "euid": uid, "answered": answered,
                 "serving": t.alive() and all(answered.get(f) for f in probes), "stderr": t.stderr()[-200:]}
     finally:
